@@ -5,6 +5,7 @@ package main
 import (
 	"fmt"
 	"go/types"
+	"os"
 	"strings"
 
 	"golang.org/x/tools/go/ssa"
@@ -58,6 +59,13 @@ func init() {
 	})
 	pure("(time.Time).Before", func(fr *Frame, st *State, args []Val, rt types.Type) Val {
 		return b(tLt(sx("instant", args[0].S[0]), sx("instant", args[1].S[0])))
+	})
+	// metav1.Time embeds time.Time (one Tim slot); Before is nil-safe
+	pure("(*v1.Time).Before", func(fr *Frame, st *State, args []Val, rt types.Type) Val {
+		h := fr.vc.get(st, fr.vc.heapKey(KT))
+		t, u := args[0], args[1]
+		return b(tAnd(tNot(tEq(t.S[0], "0")), tNot(tEq(u.S[0], "0")),
+			tLt(sx("instant", tSel2(h, t.S[0], t.S[1])), sx("instant", tSel2(h, u.S[0], u.S[1])))))
 	})
 	pure("(time.Time).After", func(fr *Frame, st *State, args []Val, rt types.Type) Val {
 		return b(tLt(sx("instant", args[1].S[0]), sx("instant", args[0].S[0])))
@@ -434,7 +442,10 @@ func init() {
 			res, ok := func() (r Val, ok bool) {
 				defer func() {
 					if rec := recover(); rec != nil {
-						if _, isU := rec.(unsupported); isU {
+						if u, isU := rec.(unsupported); isU {
+							if os.Getenv("GOVC_DEBUG") != "" {
+								fmt.Fprintf(os.Stderr, "sort comparator %s: %v\n", ci.fn, u)
+							}
 							ok = false
 							return
 						}
